@@ -171,7 +171,7 @@ CUT_STUB_NOTE = ("cut: _compute_population_correction and weighted_median (sort-
 
 
 def run_client(ctx, case, sc=None, qr_fail=None, qr_mode="uf", client=None, extra_kwargs=None, frames=None,
-               real_qr_in_replay=False):
+               real_qr_in_replay=False, config=None):
     """run the real client; returns Run(res | exc, sc, qr, s3, client)"""
     from elexmodel.client import ModelClient
 
@@ -179,14 +179,17 @@ def run_client(ctx, case, sc=None, qr_fail=None, qr_mode="uf", client=None, extr
     pre, cur = frames if frames is not None else sc.frames()
     office = case.get("office", "G")
     aggregates = case.get("aggregates", ["postal_code", "county_fips", "unit"])
-    config = S.make_config(office, sc.states() or ["AA"], features=case.get("config_features", []),
-                           fixed_effects=case.get("config_fixed_effects", []))
+    if config is None:
+        config = S.make_config(office, sc.states() or ["AA"], features=case.get("config_features", []),
+                               fixed_effects=case.get("config_fixed_effects", []))
+    out_config = config
     qr = stubs.QRStub(mode=qr_mode, fail=qr_fail, real_in_replay=real_qr_in_replay).install()
     bs = stubs.BootSigmaStub(force_deterministic=case.get("boot_sigma_deterministic", False)).install()
     s3 = stubs.FakeS3().install()
     cut = CalibrationCut().install() if case.get("cut_calibration") else None
     out = Run()
     out.sc, out.qr, out.s3, out.exc, out.res = sc, qr, s3, None, None
+    out.config = out_config
     mp = {"fit_margin_outlier_model": False, "fit_turnout_outlier_model": False}
     mp.update(case.get("model_parameters", {}))
     blocked = [u.fips for u in sc.units if u.blocklisted]
